@@ -35,6 +35,9 @@ pub struct StoreSpec {
     pub part_latency_ms: Vec<u64>,
     /// the n-th write-side request fails: "put", "part" or "complete" (0-based per kind)
     pub fail_write: Option<(String, u64)>,
+    /// listing order: 0 = as the in-memory store returns it (sorted by path); otherwise the seed of a
+    /// permutation (an object store does not promise any order of a listing)
+    pub list_order: u64,
 }
 
 impl StoreSpec {
@@ -49,6 +52,7 @@ impl StoreSpec {
             latency_ms: v.get("latency_ms")?.as_u64()?.min(10_000),
             fail_get,
             part_latency_ms: v.get("part_latency_ms").and_then(|a| a.as_array()).map(|a| a.iter().filter_map(|x| x.as_u64()).collect()).unwrap_or_default(),
+            list_order: v.get("list_order").and_then(|x| x.as_u64()).unwrap_or(0),
             fail_write: match v.get("fail_write") {
                 None | Some(serde_json::Value::Null) => None,
                 Some(f) => Some((f.get("kind")?.as_str()?.to_string(), f.get("nth")?.as_u64()?)),
@@ -199,7 +203,23 @@ impl ObjectStore for SimObjectStore {
     }
     fn list(&self, prefix: Option<&Path>) -> BoxStream<'static, Result<ObjectMeta>> {
         self.stats.lists.fetch_add(1, Ordering::Relaxed);
-        self.inner.list(prefix)
+        if self.spec.list_order == 0 {
+            return self.inner.list(prefix);
+        }
+        // a seeded permutation of the listing (collected first: the in-memory store answers at once)
+        let seed = self.spec.list_order;
+        let inner = self.inner.list(prefix);
+        futures::stream::once(async move {
+            let mut items: Vec<Result<ObjectMeta>> = inner.collect().await;
+            let mut rng = dst_common::rng::Rng::new(seed);
+            for i in (1..items.len()).rev() {
+                let j = rng.below(i as u64 + 1) as usize;
+                items.swap(i, j);
+            }
+            futures::stream::iter(items)
+        })
+        .flatten()
+        .boxed()
     }
     async fn list_with_delimiter(&self, prefix: Option<&Path>) -> Result<ListResult> {
         self.stats.lists.fetch_add(1, Ordering::Relaxed);
